@@ -940,3 +940,144 @@ Qed.
 (* every decimal numeral: non-empty, digits only, injective (what "k-of-n" labels rest on) *)
 Lemma c12_dec_facts : forall n m, dec n <> "" /\ all_digits (dec n) = true /\ (dec n = dec m -> n = m).
 Proof. intros. auto using dec_nonempty, dec_digits, dec_inj. Qed.
+
+(* ------------------------------------------------------------------------------------------------------------ *)
+(* naming for ALL names, line breaks included: the varying part of an id sits in its last line *)
+
+Lemma lines_app_tail : forall a, exists init lastl,
+  lines a = (init ++ [lastl])%list /\
+  forall b, no_nl b = true -> lines (a ++ b) = (init ++ [(lastl ++ b)%string])%list.
+Proof.
+  induction a as [|c a (init & lastl & E & H)].
+  - exists [], "". split; [reflexivity|]. intros b Hb. cbn [append app]. now apply lines_no_nl.
+  - cbn [lines append]. destruct (Ascii.eqb c nl).
+    + exists ("" :: init)%list, lastl. split; [now rewrite E|]. intros b Hb. now rewrite (H b Hb).
+    + destruct init as [|i0 r].
+      * exists [], (String c lastl). split; [now rewrite E|]. intros b Hb. now rewrite (H b Hb).
+      * exists (String c i0 :: r)%list, lastl. split; [now rewrite E|]. intros b Hb. now rewrite (H b Hb).
+Qed.
+
+Lemma first_some_app1 : forall {A} (f : string -> option A) l x,
+  first_some f (l ++ [x])%list = match first_some f l with Some a => Some a | None => f x end.
+Proof. induction l as [|y l IH]; intros x; cbn; [now destruct (f x) | destruct (f y); auto]. Qed.
+
+Lemma tail_no_nl : forall lit t, no_nl lit = true -> no_nl t = true -> no_nl (lit ++ t ++ ")") = true.
+Proof. intros lit t A B. now rewrite !no_nl_app, A, B. Qed.
+
+Lemma set_id_key_all : forall run, exists v, forall t, tag_ok t = true -> set_id (key_of run t) = v.
+Proof.
+  intros run. destruct (lines_app_tail run) as (init & lastl & _ & H).
+  destruct (replace_lit_tail "Solution (" "Summary" (lastl ++ " ")) as [b Hb].
+  eexists. intros t Ht. apply tag_ok_spec in Ht as (Hne & Hnl & _).
+  unfold set_id, per_line, key_of. rewrite H by (now apply (tail_no_nl " Solution (")).
+  rewrite map_app. cbn [map].
+  replace (lastl ++ " Solution (" ++ t ++ ")") with ((lastl ++ " ") ++ "Solution (" ++ t ++ ")") by now rewrite app_assoc_s.
+  rewrite (Hb t Hne). reflexivity.
+Qed.
+
+Lemma file_stem_key_all : forall run, exists v, forall t, tag_ok t = true -> file_stem (key_of run t) = v.
+Proof.
+  intros run. destruct (lines_app_tail (remove_char " " run)) as (init & lastl & _ & H).
+  destruct (replace_lit_tail "Solution(" "" lastl) as [b Hb].
+  eexists. intros t Ht. apply tag_ok_spec in Ht as (Hne & Hnl & Hsp).
+  unfold file_stem, per_line, key_of. rewrite !remove_char_app, (remove_char_absent _ t Hsp).
+  change (remove_char " " " Solution (") with "Solution(". change (remove_char " " ")") with ")".
+  rewrite H by (now apply (tail_no_nl "Solution(")).
+  rewrite map_app. cbn [map]. rewrite (Hb t Hne). reflexivity.
+Qed.
+
+Lemma json_set_name_key_all : forall run, exists v, forall t, tag_ok t = true -> json_set_name (key_of run t) = Ok v.
+Proof.
+  intros run. destruct (lines_app_tail run) as (init & lastl & _ & H).
+  destruct (first_some (split_last " Solution") init) as [[b0 a0]|] eqn:F.
+  - exists b0. intros t Ht. apply tag_ok_spec in Ht as (Hne & Hnl & _).
+    unfold json_set_name, key_of. rewrite H by (now apply (tail_no_nl " Solution (")).
+    now rewrite first_some_app1, F.
+  - exists lastl. intros t Ht. apply tag_ok_spec in Ht as (Hne & Hnl & Hsp).
+    unfold json_set_name, key_of. rewrite H by (now apply (tail_no_nl " Solution (")).
+    rewrite first_some_app1, F.
+    assert (E : split_last " Solution" (" Solution (" ++ t ++ ")") = Some ("", " (" ++ t ++ ")")).
+    { change (" Solution (" ++ t ++ ")") with (String " " ("Solution (" ++ t ++ ")")).
+      cbn [split_last]. rewrite split_last_none; [reflexivity | discriminate | now apply contains_space_solution]. }
+    rewrite (split_last_app _ lastl _ _ _ E). now rewrite app_nil_r_s.
+Qed.
+
+Lemma naming_all_of_shape : forall run k1 k2,
+  (exists t, tag_ok t = true /\ k1 = key_of run t) -> (exists t, tag_ok t = true /\ k2 = key_of run t) ->
+  file_stem k1 = file_stem k2 /\ set_id k1 = set_id k2
+  /\ json_set_name k1 = json_set_name k2 /\ is_ok (json_set_name k1) = true
+  /\ forall t l ids, files_written t l ids k1 = files_written t l ids k2.
+Proof.
+  intros run k1 k2 (t1 & T1 & ->) (t2 & T2 & ->).
+  destruct (file_stem_key_all run) as [v Hv]. destruct (set_id_key_all run) as [w Hw].
+  destruct (json_set_name_key_all run) as [j Hj].
+  assert (S : file_stem (key_of run t1) = file_stem (key_of run t2)) by now rewrite !Hv.
+  repeat split; auto.
+  - now rewrite !Hw.
+  - now rewrite !Hj.
+  - now rewrite Hj.
+  - intros. unfold files_written, summary_file. now rewrite S.
+Qed.
+
+Lemma c12_naming_all_names_multi :
+  forall (St V : Type) (init : St) (decompress : string -> St -> St) (enc_of : St -> string) (vals_of : St -> V)
+         (run : string) (arch : list string) (st0 : St) (k1 k2 : string),
+    let summary := snd (save_set St V init decompress enc_of vals_of run arch st0) in
+    In k1 (keys summary) -> In k2 (keys summary) ->
+    file_stem k1 = file_stem k2 /\ set_id k1 = set_id k2
+    /\ json_set_name k1 = json_set_name k2 /\ is_ok (json_set_name k1) = true
+    /\ forall t l, files_written t l (keys summary) k1 = files_written t l (keys summary) k2.
+Proof.
+  intros until k2. intros summary I1 I2. unfold summary in *. rewrite keys_save_set in *.
+  destruct (naming_all_of_shape run k1 k2) as (A & B & C & D & E); eauto 6 using ids_set_shape.
+Qed.
+
+Lemma c12_naming_all_names_single :
+  forall (St V : Type) (init : St) (decompress : string -> St -> St) (enc_of : St -> string) (vals_of : St -> V)
+         (run : string) (e : string) (st0 : St) (k1 k2 : string),
+    let summary := snd (save_optimised St V init decompress enc_of vals_of run e st0) in
+    In k1 (keys summary) -> In k2 (keys summary) ->
+    file_stem k1 = file_stem k2 /\ set_id k1 = set_id k2
+    /\ json_set_name k1 = json_set_name k2 /\ is_ok (json_set_name k1) = true
+    /\ forall t l, files_written t l (keys summary) k1 = files_written t l (keys summary) k2.
+Proof.
+  intros until k2. intros summary I1 I2. unfold summary in *. rewrite keys_save_optimised in *.
+  destruct (naming_all_of_shape run k1 k2) as (A & B & C & D & E); eauto 6 using ids_optimised_shape.
+Qed.
+
+(* ------------------------------------------------------------------------------------------------------------ *)
+(* source literals: the model's functions are what the literals of the Go source (the Saver.src_ constants) denote *)
+
+Lemma clone_id_src : forall name R r,
+  sprintf src_clone_id_format [FS name; FD r; FD R] = Some (name ++ " " ++ frac r R)
+  /\ clone_id name R r = if (1 <? R)%nat then name ++ " " ++ frac r R else name.
+Proof. intros. split; reflexivity. Qed.
+
+Lemma member_id_src : forall run k n, sprintf src_member_id_format [FS run; FD k; FD n] = Some (member_id run k n).
+Proof. intros. reflexivity. Qed.
+
+Lemma as_is_id_src : forall run, as_is_id run = run ++ src_as_is_suffix /\ as_is_id run = run ++ src_optimised_as_is_suffix.
+Proof. intros. split; reflexivity. Qed.
+
+Lemma optimised_id_src : forall run, optimised_id run = run ++ src_optimised_suffix.
+Proof. reflexivity. Qed.
+
+Lemma row_label_src : forall id,
+  row_label id = if contains src_label_pat1 id then src_label_1
+                 else if contains src_label_pat2 id then src_label_2
+                 else replace_char "/" src_label_sep (last (find_all_frac id) src_label_default).
+Proof. reflexivity. Qed.
+
+Lemma set_id_src : forall key,
+  regex_lit_dots_rparen "Solution (" = src_set_id_regex
+  /\ set_id key = per_line (replace_lit_dots_rparen "Solution (" src_set_id_replacement) key.
+Proof. intros. split; reflexivity. Qed.
+
+Lemma file_stem_src : forall key,
+  regex_lit_dots_rparen "Solution(" = src_file_stem_regex
+  /\ file_stem key = replace_char "/" "_of_" (per_line (replace_lit_dots_rparen "Solution(" "") (remove_char " " key))
+  /\ src_file_stem_lits = [" "; ""; regex_lit_dots_rparen "Solution("; ""; "/"; "_of_"].
+Proof. intros. repeat split; reflexivity. Qed.
+
+Lemma json_set_name_src : "(.*)" ++ " Solution" ++ ".*" = src_json_name_regex.
+Proof. reflexivity. Qed.
